@@ -231,6 +231,15 @@ Byte:
 			// Ignoring error because this scanner cannot produce errors.
 			advance, _, _ := textseg.ScanGraphemeClusters(buf[i:], true)
 
+			// A cluster can extend over a following quote or backslash
+			// (after a "prepend" character), but those always delimit.
+			for j := 1; j < advance; j++ {
+				if buf[i+j] == '"' || buf[i+j] == '\\' {
+					advance = j
+					break
+				}
+			}
+
 			p.Pos.Byte += advance
 			p.Pos.Column++
 			i += advance
